@@ -139,7 +139,15 @@ def rule_a(ctx):
             f = c.lookup(name)
             if f is None:
                 continue
+            seen_here = 0
             for p in ctx.paths(f, c, args={'is_complete': const(False)} if 'is_complete' in f.params() else None):
+                full = [x for x in p.events if x.kind == 'cond' and attr in repr(x.data['key']) and
+                        x.data['key'][0] == 'eq' and x.data['value']]
+                asked = [e for e in p.events if e.kind == 'call' and e.data.get('name') == 'request' and
+                         e.data.get('how') in ('app', 'unknown')]
+                if name == 'on_next' and full and not asked and p.outcome == 'return':
+                    ok = False  # a full batch was consumed and nothing is requested: the stream stalls
+                seen_here += len(asked)
                 for e in p.events:
                     if e.kind == 'call' and e.data.get('name') == 'request' and e.data.get('how') in ('app', 'unknown'):
                         seen += 1
@@ -151,6 +159,8 @@ def rule_a(ctx):
                                     attr in repr(x.data['key']) and x.data['key'][0] == 'eq' and x.data['value']]
                             if not gate:
                                 ok = False
+            if name == 'on_next' and seen_here == 0:
+                ok = False  # no replenishment at all in on_next
         rep.add('C06.a', '%s / re-requests exactly its limit after a full batch' % spec.split(':')[1] + ' (%s)' %
                 spec.split('.')[1], c, ok and seen > 0,
                 'subscription.request(limit) when the received count reaches the limit' if ok and seen else
@@ -161,11 +171,31 @@ def rule_a(ctx):
         seen = 0
         ok = True
         for p in ctx.paths(f, None):
-            for e in p.events:
+            evs = p.events
+            for e in evs:
                 if e.kind == 'call' and e.data.get('name') == 'request':
                     seen += 1
                     if strip_epoch(e.data['args'][0].term) != ('param', f.qualname, 'limit_rate'):
                         ok = False
+                    # one request per signal: since the previous request (or the start) the task has waited for the
+                    # subscriber's event, and it clears the event before it waits again
+                    prev = [x.seq for x in evs if x.kind == 'call' and x.data.get('name') == 'request' and x.seq < e.seq]
+                    lo = max(prev) if prev else -1
+                    waited = [x for x in evs if x.kind == 'call' and x.data.get('name') == 'wait' and
+                              lo < x.seq < e.seq]
+                    if not waited:
+                        ok = False
+            # ... within the iteration: wait, then (in either order) request and clear, then back to the wait
+            backs = [x for x in evs if x.kind == 'loop' and x.data.get('phase') in ('back', 'cut')]
+            waits = [x for x in evs if x.kind == 'call' and x.data.get('name') == 'wait']
+            if backs and waits:
+                if not [x for x in evs if x.kind == 'call' and x.data.get('name') == 'clear' and
+                        waits[0].seq < x.seq < backs[0].seq]:
+                    ok = False  # the event stays set: the next iteration requests again without a new signal
+            reqs = [x for x in evs if x.kind == 'call' and x.data.get('name') == 'request']
+            for a, b in zip(reqs, reqs[1:]):
+                if not [x for x in evs if x.kind == 'call' and x.data.get('name') == 'clear' and a.seq < x.seq < b.seq]:
+                    ok = False
         rep.add('C06.a', '%s _trigger_next_request_n / requests the limit' % pkg, f, ok and seen > 0,
                 'request(limit_rate)' if ok and seen else 'does not request exactly limit_rate')
         # ... and it is woken exactly when a full batch of that size has been consumed: the subscriber's trigger
